@@ -324,6 +324,8 @@ def _wellformed(rng):
         elif k in ("timeFn",):
             continue                                      # the data accessor stays the default
         elif k == "textFn":
+            if rng.random() < 0.5:
+                o[k] = None                               # handled explicitly by Timeline.textFn
             continue
         elif k in COLOURS:
             o[k] = _colour(rng)
@@ -475,8 +477,8 @@ def compare(case, io, mo):
                 return "%s: keys of self.options %r, model %r" % (kind, sorted(got), sorted(want))
             for k in want:
                 if k in ("timeFn", "textFn"):
-                    if got[k] != "FUN":
-                        return "%s: options[%r] is not callable" % (kind, k)
+                    if got[k] != ("FUN" if want[k] == "FUN" else want[k]):
+                        return "%s: options[%r] is %r, model %r" % (kind, k, got[k], want[k])
                     continue
                 if not _same(got[k], want[k]):
                     return "%s: self.options[%r] = %r, model %r" % (kind, k, got[k], want[k])
